@@ -139,8 +139,10 @@ class Unit:
         self.ctext_plain = ctext
         labels = [l.label for l in X.find_loops(ctext)]
         want = sp.lst('loops')
+        self.shape_changed = None
         if want and labels != want:
-            raise X.ExtractError('%s: loop shape changed: code has %s, contract written for %s' % (sp.name, labels, want))
+            # the loop contracts no longer fit; the driver falls back to a bounded search with the function contract
+            self.shape_changed = 'loop shape changed: code has %s, contract written for %s' % (labels, want)
         self.info['loops'] = labels
         return ctext
 
@@ -217,6 +219,9 @@ def run_config(unit, cfgname, workdir, tier='quick', mutate=None, want_trace=Fal
         if ctext is None:
             ctext = unit.extract(mutate=mutate)
         loopc = res.mode == 'proof'
+        if getattr(unit, 'shape_changed', None) and sp.loops:
+            res.status, res.reason = 'shape', unit.shape_changed
+            return res
         csrc = unit.c_source(cfg, ctext, with_loop_contracts=loopc)
     except X.ExtractError as e:
         res.status, res.reason = 'inconclusive', 'extraction broke: %s' % e
